@@ -86,6 +86,287 @@ theorem trimRight_eq_self (p : UInt8 → Bool) (b : Bytes)
     exact h c hc
   rw [h2, List.reverse_reverse]
 
+/-! ### trimming of byte sequences (generic in the list of sequences) -/
+
+/-- what the generic lemmas need of a list of sequences: none is empty, none is a proper prefix of another -/
+structure SeqsOK (P : List Bytes) : Prop where
+  ne : ∀ p ∈ P, p ≠ []
+  pf : ∀ p ∈ P, ∀ q ∈ P, p <+: q → p = q
+
+theorem spaceSeqs_ok : SeqsOK spaceSeqs := by
+  constructor
+  · decide
+  · have h : ∀ p ∈ spaceSeqs, ∀ q ∈ spaceSeqs, p.isPrefixOf q = true → p = q := by decide
+    intro p hp q hq hpq
+    exact h p hp q hq (List.isPrefixOf_iff_prefix.mpr hpq)
+
+theorem spaceSeqsRev_ok : SeqsOK spaceSeqsRev := by
+  constructor
+  · decide
+  · have h : ∀ p ∈ spaceSeqsRev, ∀ q ∈ spaceSeqsRev, p.isPrefixOf q = true → p = q := by decide
+    intro p hp q hq hpq
+    exact h p hp q hq (List.isPrefixOf_iff_prefix.mpr hpq)
+
+theorem find_of_none (P : List Bytes) (b : Bytes) (h : ∀ p ∈ P, ¬ p <+: b) :
+    P.find? (·.isPrefixOf b) = none := by
+  apply List.find?_eq_none.mpr
+  intro p hp hpb
+  exact h p hp (List.isPrefixOf_iff_prefix.mp hpb)
+
+theorem find_of_mem (P : List Bytes) (hP : SeqsOK P) (p b : Bytes) (hp : p ∈ P) (hpb : p <+: b) :
+    P.find? (·.isPrefixOf b) = some p := by
+  cases hf : P.find? (·.isPrefixOf b) with
+  | none =>
+    have := List.find?_eq_none.mp hf p hp
+    exact absurd (List.isPrefixOf_iff_prefix.mpr hpb) this
+  | some p' =>
+    have hm : p' ∈ P := List.mem_of_find?_eq_some hf
+    have hpre : p' <+: b := List.isPrefixOf_iff_prefix.mp (List.find?_some (p := fun x : Bytes => x.isPrefixOf b) hf)
+    rcases List.prefix_or_prefix_of_prefix hpre hpb with h | h
+    · rw [hP.pf p' hm p hp h]
+    · rw [hP.pf p hp p' hm h]
+
+theorem tls_go_succ_eq (P : List Bytes) (b : Bytes) (f : Nat) :
+    trimLeftSeqs.go P b (f + 1) =
+      match P.find? (·.isPrefixOf b) with
+      | some p => trimLeftSeqs.go P (b.drop p.length) f
+      | none => b := rfl
+
+theorem tls_go_succ (P : List Bytes) (hP : SeqsOK P) (f : Nat) (b : Bytes) (hf : b.length ≤ f) :
+    trimLeftSeqs.go P b (f + 1) = trimLeftSeqs.go P b f := by
+  induction f generalizing b with
+  | zero =>
+    have : b = [] := List.eq_nil_of_length_eq_zero (Nat.le_zero.mp hf)
+    subst this
+    rw [tls_go_succ_eq, find_of_none]
+    · rfl
+    · intro p hp hpb
+      exact hP.ne p hp (List.prefix_nil.mp hpb)
+  | succ n ih =>
+    rw [tls_go_succ_eq P b (n + 1), tls_go_succ_eq P b n]
+    cases hfind : P.find? (·.isPrefixOf b) with
+    | none => rfl
+    | some p =>
+      simp only
+      apply ih
+      have := List.length_pos_iff.mpr (hP.ne p (List.mem_of_find?_eq_some hfind))
+      rw [List.length_drop]
+      omega
+
+theorem tls_go_eq (P : List Bytes) (hP : SeqsOK P) (f : Nat) (b : Bytes) (hf : b.length ≤ f) :
+    trimLeftSeqs.go P b f = trimLeftSeqs P b := by
+  induction f with
+  | zero =>
+    have : b = [] := List.eq_nil_of_length_eq_zero (Nat.le_zero.mp hf)
+    subst this
+    rfl
+  | succ n ih =>
+    by_cases h : b.length = n + 1
+    · unfold trimLeftSeqs; rw [h]
+    · rw [tls_go_succ P hP n b (by omega), ih (by omega)]
+
+/-- nothing to drop -/
+theorem tls_of_none (P : List Bytes) (b : Bytes) (h : ∀ p ∈ P, ¬ p <+: b) : trimLeftSeqs P b = b := by
+  unfold trimLeftSeqs
+  cases b.length with
+  | zero => rfl
+  | succ n => rw [tls_go_succ_eq, find_of_none P b h]
+
+/-- a leading sequence is dropped -/
+theorem tls_of_mem (P : List Bytes) (hP : SeqsOK P) (p x : Bytes) (hp : p ∈ P) :
+    trimLeftSeqs P (p ++ x) = trimLeftSeqs P x := by
+  have hpos := List.length_pos_iff.mpr (hP.ne p hp)
+  obtain ⟨k, hk⟩ : ∃ k, (p ++ x).length = k + 1 := ⟨(p ++ x).length - 1, by rw [List.length_append]; omega⟩
+  have hx : x.length ≤ k := by rw [List.length_append] at hk; omega
+  unfold trimLeftSeqs
+  rw [hk, tls_go_succ_eq, find_of_mem P hP p (p ++ x) hp (List.prefix_append p x)]
+  simp only [List.drop_left]
+  exact tls_go_eq P hP k x hx
+
+theorem tls_go_suffix (P : List Bytes) (f : Nat) (b : Bytes) : trimLeftSeqs.go P b f <:+ b := by
+  induction f generalizing b with
+  | zero => exact List.suffix_refl _
+  | succ n ih =>
+    rw [tls_go_succ_eq]
+    split
+    · exact (ih _).trans (List.drop_suffix _ _)
+    · exact List.suffix_refl _
+
+theorem tls_suffix (P : List Bytes) (b : Bytes) : trimLeftSeqs P b <:+ b := tls_go_suffix P _ b
+
+theorem tls_go_noPre (P : List Bytes) (hP : SeqsOK P) (f : Nat) (b : Bytes) (hf : b.length ≤ f) :
+    ∀ p ∈ P, ¬ p <+: trimLeftSeqs.go P b f := by
+  induction f generalizing b with
+  | zero =>
+    have : b = [] := List.eq_nil_of_length_eq_zero (Nat.le_zero.mp hf)
+    subst this
+    intro p hp hpb
+    exact hP.ne p hp (List.prefix_nil.mp hpb)
+  | succ n ih =>
+    rw [tls_go_succ_eq]
+    cases hfind : P.find? (·.isPrefixOf b) with
+    | none =>
+      intro p hp hpb
+      exact List.find?_eq_none.mp hfind p hp (List.isPrefixOf_iff_prefix.mpr hpb)
+    | some p =>
+      simp only
+      apply ih
+      have := List.length_pos_iff.mpr (hP.ne p (List.mem_of_find?_eq_some hfind))
+      rw [List.length_drop]
+      omega
+
+/-- the result starts with none of the sequences -/
+theorem tls_noPre (P : List Bytes) (hP : SeqsOK P) (b : Bytes) : ∀ p ∈ P, ¬ p <+: trimLeftSeqs P b :=
+  tls_go_noPre P hP _ b (Nat.le_refl _)
+
+/-- A sequence appended to a text that starts with none of the sequences does not create one at the start, provided
+that the first byte of the appended sequence occurs in no sequence at a later position. -/
+theorem noPre_append (P : List Bytes) (s q : Bytes) (hs : ∀ p ∈ P, ¬ p <+: s) (hne : s ≠ [])
+    (hq : ∀ p ∈ P, ∀ h ∈ q.head?, h ∉ p.tail) : ∀ p ∈ P, ¬ p <+: s ++ q := by
+  intro p hp hpre
+  rcases List.prefix_or_prefix_of_prefix hpre (List.prefix_append s q) with h | h
+  · exact hs p hp h
+  · rcases h with ⟨y, rfl⟩
+    have hy : y <+: q := (List.prefix_append_right_inj s).mp hpre
+    cases y with
+    | nil => exact hs _ hp (by simp)
+    | cons c y =>
+      cases s with
+      | nil => exact hne rfl
+      | cons a s =>
+        rcases hy with ⟨z, rfl⟩
+        exact hq _ hp c (by simp) (by simp)
+
+theorem tls_append_seq (P : List Bytes) (hP : SeqsOK P) (q : Bytes) (hqP : q ∈ P)
+    (hq : ∀ p ∈ P, ∀ h ∈ q.head?, h ∉ p.tail) (n : Nat) (s : Bytes) (hn : s.length ≤ n) :
+    trimLeftSeqs P (s ++ q) = if trimLeftSeqs P s = [] then [] else trimLeftSeqs P s ++ q := by
+  induction n generalizing s with
+  | zero =>
+    have : s = [] := List.eq_nil_of_length_eq_zero (Nat.le_zero.mp hn)
+    subst this
+    have h0 : trimLeftSeqs P ([] : Bytes) = [] := rfl
+    have := tls_of_mem P hP q [] hqP
+    rw [List.append_nil] at this
+    rw [List.nil_append, this, h0]
+    rfl
+  | succ n ih =>
+    by_cases h : ∃ p ∈ P, p <+: s
+    · rcases h with ⟨p, hp, x, rfl⟩
+      have hpos := List.length_pos_iff.mpr (hP.ne p hp)
+      rw [List.append_assoc, tls_of_mem P hP p _ hp, tls_of_mem P hP p _ hp]
+      apply ih
+      rw [List.length_append] at hn
+      omega
+    · have hs : ∀ p ∈ P, ¬ p <+: s := fun p hp hps => h ⟨p, hp, hps⟩
+      rw [tls_of_none P s hs]
+      by_cases he : s = []
+      · subst he
+        have h0 : trimLeftSeqs P ([] : Bytes) = [] := rfl
+        have := tls_of_mem P hP q [] hqP
+        rw [List.append_nil] at this
+        rw [List.nil_append, this, h0]
+        rfl
+      · rw [if_neg he]
+        exact tls_of_none P _ (noPre_append P s q hs he hq)
+
+/-! ### `trimSpaceU` -/
+
+/-- the text starts with none of the space sequences -/
+def NoPre (t : Bytes) : Prop := ∀ p ∈ spaceSeqs, ¬ p <+: t
+
+/-- the text ends with none of the space sequences -/
+def NoSuf (t : Bytes) : Prop := ∀ p ∈ spaceSeqs, ¬ p <:+ t
+
+theorem mem_spaceSeqsRev (p : Bytes) (h : p ∈ spaceSeqs) : p.reverse ∈ spaceSeqsRev :=
+  List.mem_map_of_mem h
+
+theorem of_mem_spaceSeqsRev (p : Bytes) (h : p ∈ spaceSeqsRev) : p.reverse ∈ spaceSeqs := by
+  rcases List.mem_map.mp h with ⟨q, hq, rfl⟩
+  rwa [List.reverse_reverse]
+
+/-- the first byte of a space sequence (a start byte) is at no later position of a space sequence (continuation bytes) -/
+theorem spaceSeqs_head : ∀ p ∈ spaceSeqs, ∀ q ∈ spaceSeqs, ∀ h ∈ q.head?, h ∉ p.tail := by
+  have h : ∀ p ∈ spaceSeqs, ∀ q ∈ spaceSeqs, ∀ h ∈ q.take 1, h ∉ p.tail := by decide
+  intro p hp q hq c hc
+  apply h p hp q hq c
+  cases q with
+  | nil => cases hc
+  | cons a q => simp at hc; simp [hc]
+
+theorem trimLeftU_suffix (b : Bytes) : trimLeftU b <:+ b := tls_suffix _ b
+
+theorem trimRightU_prefix (b : Bytes) : trimRightU b <+: b := by
+  unfold trimRightU
+  have h := tls_suffix spaceSeqsRev b.reverse
+  have h2 := List.reverse_prefix.mpr h
+  rwa [List.reverse_reverse] at h2
+
+theorem trimSpaceU_infix (b : Bytes) : ∃ pre post, b = pre ++ trimSpaceU b ++ post := by
+  rcases trimLeftU_suffix b with ⟨pre, hpre⟩
+  rcases trimRightU_prefix (trimLeftU b) with ⟨post, hpost⟩
+  refine ⟨pre, post, ?_⟩
+  unfold trimSpaceU
+  rw [List.append_assoc, hpost, hpre]
+
+/-- the one-byte space sequences are the ASCII white space -/
+theorem asciiSpace_iff_mem (c : UInt8) : isAsciiSpace c = true ↔ [c] ∈ spaceSeqs := by
+  simp [isAsciiSpace, spaceSeqs, or_assoc]
+
+theorem trimSpaceU_sublist (b : Bytes) : (trimSpaceU b).Sublist b :=
+  (trimRightU_prefix _).sublist.trans (trimLeftU_suffix b).sublist
+
+theorem trimLeftU_noPre (b : Bytes) : NoPre (trimLeftU b) := tls_noPre _ spaceSeqs_ok b
+
+theorem trimRightU_noSuf (b : Bytes) : NoSuf (trimRightU b) := by
+  intro p hp hs
+  unfold trimRightU at hs
+  have h := List.reverse_prefix.mpr hs
+  rw [List.reverse_reverse] at h
+  exact tls_noPre _ spaceSeqsRev_ok b.reverse p.reverse (mem_spaceSeqsRev p hp) h
+
+theorem noPre_of_prefix (t l : Bytes) (h : t <+: l) (hl : NoPre l) : NoPre t :=
+  fun p hp hpt => hl p hp (hpt.trans h)
+
+theorem trimSpaceU_noPre (b : Bytes) : NoPre (trimSpaceU b) :=
+  noPre_of_prefix _ _ (trimRightU_prefix _) (trimLeftU_noPre b)
+
+theorem trimSpaceU_noSuf (b : Bytes) : NoSuf (trimSpaceU b) := trimRightU_noSuf _
+
+theorem trimLeftU_eq_self (t : Bytes) (h : NoPre t) : trimLeftU t = t := tls_of_none _ t h
+
+theorem trimRightU_eq_self (t : Bytes) (h : NoSuf t) : trimRightU t = t := by
+  unfold trimRightU
+  rw [tls_of_none, List.reverse_reverse]
+  intro p hp hpre
+  apply h p.reverse (of_mem_spaceSeqsRev p hp)
+  have := List.reverse_suffix.mpr hpre
+  rwa [List.reverse_reverse] at this
+
+/-- a text that neither starts nor ends with a space sequence is left alone -/
+theorem trimSpaceU_eq_self (t : Bytes) (h1 : NoPre t) (h2 : NoSuf t) : trimSpaceU t = t := by
+  unfold trimSpaceU
+  rw [trimLeftU_eq_self t h1, trimRightU_eq_self t h2]
+
+theorem trimLeftU_seq (p x : Bytes) (hp : p ∈ spaceSeqs) : trimLeftU (p ++ x) = trimLeftU x :=
+  tls_of_mem _ spaceSeqs_ok p x hp
+
+theorem trimRightU_seq (q x : Bytes) (hq : q ∈ spaceSeqs) : trimRightU (x ++ q) = trimRightU x := by
+  unfold trimRightU
+  rw [List.reverse_append, tls_of_mem _ spaceSeqsRev_ok _ _ (mem_spaceSeqsRev q hq)]
+
+theorem trimLeftU_append_seq (s q : Bytes) (hq : q ∈ spaceSeqs) :
+    trimLeftU (s ++ q) = if trimLeftU s = [] then [] else trimLeftU s ++ q :=
+  tls_append_seq _ spaceSeqs_ok q hq (fun p hp => spaceSeqs_head p hp q hq) _ s (Nat.le_refl _)
+
+/-- a space sequence in front and a space sequence behind are trimmed away -/
+theorem trimSpaceU_surround (p q s : Bytes) (hp : p ∈ spaceSeqs) (hq : q ∈ spaceSeqs) :
+    trimSpaceU (p ++ (s ++ q)) = trimSpaceU s := by
+  unfold trimSpaceU
+  rw [trimLeftU_seq p _ hp, trimLeftU_append_seq s q hq]
+  split
+  · rename_i h; rw [h]
+  · exact trimRightU_seq q _ hq
+
 /-! ### splitLines / joinLines -/
 
 theorem splitLines_ne_nil (b : Bytes) : splitLines b ≠ [] := by
@@ -242,7 +523,7 @@ theorem removeParens_sublist (x y : Bytes) (h : removeParens x = .ok y) : y.Subl
       · injection h with h
         subst h
         refine (trimBoth_sublist _ _).trans ((trimBoth_sublist _ _).trans ?_)
-        exact (List.dropLast_sublist _).trans ((List.drop_sublist _ _).trans (trimBoth_sublist _ _))
+        exact (List.dropLast_sublist _).trans ((List.drop_sublist _ _).trans (trimSpaceU_sublist _))
       · cases h
     · cases h
   · injection h with h
@@ -351,34 +632,138 @@ theorem trimBoth_eq_self (p : UInt8 → Bool) (l : Bytes)
   unfold trimBoth
   rw [trimLeft_eq_self p l hh, trimRight_eq_self p l hl]
 
-theorem collapseWs_trimmed (t : Bytes)
-    (hh : ∀ c, t.head? = some c → isAsciiSpace c = false)
-    (hl : ∀ c, t.getLast? = some c → isAsciiSpace c = false) :
-    (∀ c, (collapseWs t).head? = some c → isAsciiSpace c = false) ∧
-    (∀ c, (collapseWs t).getLast? = some c → isAsciiSpace c = false) := by
-  constructor
-  · cases t with
-    | nil => intro c h; cases h
+/-- every space sequence is either one byte of the regexp class `\s`, or has no such byte -/
+theorem spaceSeqs_class : ∀ p ∈ spaceSeqs,
+    (p.length = 1 ∧ p.all isReSpace = true) ∨ p.all (fun x => !isReSpace x) = true := by decide
+
+theorem reSpace_mem (c : UInt8) (h : isReSpace c = true) : [c] ∈ spaceSeqs := by
+  simp only [isReSpace, Bool.or_eq_true, beq_iff_eq] at h
+  rcases h with (((rfl | rfl) | rfl) | rfl) | rfl <;> decide
+
+theorem collapseWsAux_cons_of_not (f : Bool) (a : UInt8) (r : Bytes) (ha : isReSpace a = false) :
+    collapseWsAux f (a :: r) = a :: collapseWsAux false r := by
+  simp [collapseWsAux, ha]
+
+/-- a prefix without `\s` bytes of the collapsed text is a prefix of the text -/
+theorem prefix_collapse (p t : Bytes) (hp : ∀ x ∈ p, isReSpace x = false)
+    (h : p <+: collapseWsAux false t) : p <+: t := by
+  induction p generalizing t with
+  | nil => exact List.nil_prefix
+  | cons x p ih =>
+    cases t with
+    | nil => simp [collapseWsAux] at h
     | cons a r =>
-      have ha := hh a rfl
-      have ha' := reSpace_asciiSpace a ha
-      intro c h
-      simp only [collapseWs, collapseWsAux, ha', Bool.false_eq_true, if_false, List.head?_cons] at h
-      injection h with h
-      rw [← h]; exact ha
-  · rcases List.eq_nil_or_concat t with rfl | ⟨r, e, rfl⟩
-    · intro c h; cases h
-    · have he := hl e (by simp)
-      have he' := reSpace_asciiSpace e he
-      intro c h
-      rw [collapseWs, List.concat_eq_append, collapseWsAux_snoc _ _ _ he'] at h
-      simp at h
-      rw [← h]; exact he
+      by_cases ha : isReSpace a = true
+      · simp only [collapseWsAux, ha, if_true, Bool.false_eq_true, if_false] at h
+        have hx := (List.cons_prefix_cons.mp h).1
+        have := hp x List.mem_cons_self
+        rw [hx, isReSpace_sp] at this
+        cases this
+      · have ha' : isReSpace a = false := by simpa using ha
+        rw [collapseWsAux_cons_of_not _ _ _ ha'] at h
+        have h' := List.cons_prefix_cons.mp h
+        rw [h'.1]
+        exact List.cons_prefix_cons.mpr ⟨rfl, ih r (fun y hy => hp y (List.mem_cons_of_mem _ hy)) h'.2⟩
+
+/-- a collapsed text without `\s` bytes is the text itself -/
+theorem collapse_id (r : Bytes) (h : ∀ x ∈ collapseWsAux false r, isReSpace x = false) :
+    collapseWsAux false r = r := by
+  induction r with
+  | nil => rfl
+  | cons a r ih =>
+    by_cases ha : isReSpace a = true
+    · simp only [collapseWsAux, ha, if_true, Bool.false_eq_true, if_false] at h
+      have := h B.sp List.mem_cons_self
+      rw [isReSpace_sp] at this
+      cases this
+    · have ha' : isReSpace a = false := by simpa using ha
+      rw [collapseWsAux_cons_of_not _ _ _ ha'] at h ⊢
+      rw [ih (fun y hy => h y (List.mem_cons_of_mem _ hy))]
+
+/-- a non-empty suffix without `\s` bytes of the collapsed text is a suffix of the text -/
+theorem suffix_collapse (f : Bool) (p t : Bytes) (hp : ∀ x ∈ p, isReSpace x = false) (hne : p ≠ [])
+    (h : p <:+ collapseWsAux f t) : p <:+ t := by
+  induction t generalizing f with
+  | nil =>
+    have : p = [] := by simpa [collapseWsAux] using h
+    exact absurd this hne
+  | cons a r ih =>
+    by_cases ha : isReSpace a = true
+    · cases f
+      · simp only [collapseWsAux, ha, if_true, Bool.false_eq_true, if_false] at h
+        rcases List.suffix_cons_iff.mp h with h | h
+        · cases p with
+          | nil => exact absurd rfl hne
+          | cons x p =>
+            injection h with hx _
+            have := hp x List.mem_cons_self
+            rw [hx, isReSpace_sp] at this
+            cases this
+        · exact (ih true h).trans (List.suffix_cons a r)
+      · simp only [collapseWsAux, ha, if_true] at h
+        exact (ih true h).trans (List.suffix_cons a r)
+    · have ha' : isReSpace a = false := by simpa using ha
+      rw [collapseWsAux_cons_of_not _ _ _ ha'] at h
+      rcases List.suffix_cons_iff.mp h with h | h
+      · cases p with
+        | nil => exact absurd rfl hne
+        | cons x p =>
+          injection h with hx hp'
+          have hid : collapseWsAux false r = r := by
+            apply collapse_id
+            rw [← hp']
+            exact fun y hy => hp y (List.mem_cons_of_mem _ hy)
+          rw [hx, hp', hid]
+          exact List.suffix_refl _
+      · exact (ih false h).trans (List.suffix_cons a r)
+
+theorem collapseWs_noPre (t : Bytes) (h : NoPre t) : NoPre (collapseWs t) := by
+  intro p hp hpre
+  rcases spaceSeqs_class p hp with ⟨hl, ha⟩ | ha
+  · rcases List.length_eq_one_iff.mp hl with ⟨c, rfl⟩
+    have hc : isReSpace c = true := by simpa using ha
+    cases t with
+    | nil => simp [collapseWs, collapseWsAux] at hpre
+    | cons a r =>
+      by_cases har : isReSpace a = true
+      · exact h [a] (reSpace_mem a har) (List.cons_prefix_cons.mpr ⟨rfl, List.nil_prefix⟩)
+      · have ha' : isReSpace a = false := by simpa using har
+        rw [collapseWs, collapseWsAux_cons_of_not _ _ _ ha'] at hpre
+        have := (List.cons_prefix_cons.mp hpre).1
+        rw [this, ha'] at hc
+        cases hc
+  · apply h p hp
+    apply prefix_collapse p t _ hpre
+    intro x hx
+    simpa using List.all_eq_true.mp ha x hx
+
+theorem collapseWs_noSuf (t : Bytes) (h : NoSuf t) : NoSuf (collapseWs t) := by
+  intro p hp hsuf
+  rcases spaceSeqs_class p hp with ⟨hl, ha⟩ | ha
+  · rcases List.length_eq_one_iff.mp hl with ⟨c, rfl⟩
+    have hc : isReSpace c = true := by simpa using ha
+    rcases List.eq_nil_or_concat t with rfl | ⟨r, e, rfl⟩
+    · simp [collapseWs, collapseWsAux] at hsuf
+    · by_cases her : isReSpace e = true
+      · apply h [e] (reSpace_mem e her)
+        rw [List.concat_eq_append]
+        exact List.suffix_append r [e]
+      · have he' : isReSpace e = false := by simpa using her
+        rw [collapseWs, List.concat_eq_append, collapseWsAux_snoc _ _ _ he'] at hsuf
+        rcases hsuf with ⟨u, hu⟩
+        have := congrArg List.getLast? hu
+        simp at this
+        rw [this, he'] at hc
+        cases hc
+  · apply h p hp
+    apply suffix_collapse false p t _ (spaceSeqs_ok.ne p hp) hsuf
+    intro x hx
+    simpa using List.all_eq_true.mp ha x hx
 
 theorem annotation_idempotent' (s : Bytes) : annotation (annotation s) = annotation s := by
-  have ht := collapseWs_trimmed (trimBoth isAsciiSpace s) (trimBoth_head _ _) (trimBoth_last _ _)
-  show collapseWs (trimBoth isAsciiSpace (annotation s)) = annotation s
-  rw [trimBoth_eq_self isAsciiSpace (annotation s) ht.1 ht.2]
+  show collapseWs (trimSpaceU (annotation s)) = annotation s
+  rw [trimSpaceU_eq_self (annotation s) (collapseWs_noPre _ (trimSpaceU_noPre s))
+    (collapseWs_noSuf _ (trimSpaceU_noSuf s))]
   exact collapseWsAux_idem false _
 
 theorem dropWhile_snoc_pos (p : UInt8 → Bool) (s : Bytes) (c : UInt8) (hc : p c = true) :
@@ -409,10 +794,20 @@ theorem trimBoth_surround (p : UInt8 → Bool) (s : Bytes) (c : UInt8) (hc : p c
   · rename_i h; rw [h]
   · exact trimRight_snoc_pos p _ c hc
 
+theorem sp_mem_spaceSeqs : [B.sp] ∈ spaceSeqs := by decide
+
 theorem annotation_surrounding_blanks' (s : Bytes) :
     annotation (B.sp :: (s ++ [B.sp])) = annotation s := by
   unfold annotation
-  rw [trimBoth_surround isAsciiSpace s B.sp isAsciiSpace_sp]
+  have := trimSpaceU_surround [B.sp] [B.sp] s sp_mem_spaceSeqs sp_mem_spaceSeqs
+  rw [List.singleton_append] at this
+  rw [this]
+
+/-- any white-space sequence of `TrimSpace` in front and behind (ASCII or Unicode) is immaterial -/
+theorem annotation_surrounding_spaces' (p q s : Bytes) (hp : p ∈ spaceSeqs) (hq : q ∈ spaceSeqs) :
+    annotation (p ++ s ++ q) = annotation s := by
+  unfold annotation
+  rw [List.append_assoc, trimSpaceU_surround p q s hp hq]
 
 theorem collapseWsAux_mem (f : Bool) (l : Bytes) :
     ∀ c ∈ collapseWsAux f l, c = B.sp ∨ isReSpace c = false := by
@@ -1021,15 +1416,15 @@ theorem description_nf (b d : Bytes) (h : description b = .ok d) : NF d := by
     exact ⟨hcr, tlb_eq_self d n1, trimRight_eq_self _ d n2, n3⟩
 
 theorem removeParens_of_not_shaped (d : Bytes)
-    (hp : ¬ (2 ≤ (trimBoth isAsciiSpace d).length ∧ (trimBoth isAsciiSpace d).head? = some B.lpar ∧
-      (trimBoth isAsciiSpace d).getLast? = some B.rpar)) : removeParens d = .ok d := by
+    (hp : ¬ (2 ≤ (trimSpaceU d).length ∧ (trimSpaceU d).head? = some B.lpar ∧
+      (trimSpaceU d).getLast? = some B.rpar)) : removeParens d = .ok d := by
   unfold removeParens
   simp only
   rw [if_neg hp]
 
 theorem description_nf_fixed' (d : Bytes) (hn : NF d)
-    (hp : ¬ (2 ≤ (trimBoth isAsciiSpace d).length ∧ (trimBoth isAsciiSpace d).head? = some B.lpar ∧
-      (trimBoth isAsciiSpace d).getLast? = some B.rpar)) : description d = .ok d := by
+    (hp : ¬ (2 ≤ (trimSpaceU d).length ∧ (trimSpaceU d).head? = some B.lpar ∧
+      (trimSpaceU d).getLast? = some B.rpar)) : description d = .ok d := by
   unfold description
   rw [normNL_id_of_no_cr d hn.no_cr, removeParens_of_not_shaped d hp]
   simp only
